@@ -199,6 +199,50 @@ def run(ctx):
     aborts(ctx)
     stream_loops(ctx)
     lexer_slices(ctx)
+    quoted_symbols(ctx, c)
+
+
+def quoted_symbols(ctx, c):
+    """R14.9: the text of a quoted symbol `|..|` is a name whatever it looks like (`|true|`, `|#b01|`, `|let|` are symbols): it must never reach the
+    literal / keyword recognition (the function that consults the literal regex set)"""
+    ctx.rule("R14.9", "the payload of Token::EscapedValue never flows into the literal/keyword recognition (the function consulting NUM_LIT_REGEX): quoted symbols are resolved as symbols only")
+    recognisers = set()
+    for p, fl in c.fns.items():
+        if p.startswith(Pm) and "__static_ref_initialize" not in p and "NUM_LIT_REGEX" not in p:
+            if any("NUM_LIT_REGEX" in (x.get("path") or "") or "NUM_LIT_REGEX" in (callee(x) or "") for x in walk(fl[0]["body"])):
+                recognisers.add(p)
+    ctx.inst("R14.9", "recogniser", len(recognisers) >= 1, None, "UNRECOGNISED: no function of smt::parser consults NUM_LIT_REGEX", sample=sorted(recognisers), nontrivial=False)
+    n = 0
+    for p, fl in sorted(c.fns.items()):
+        if not p.startswith(Pm):
+            continue
+        f = fl[0]
+        per = 0
+        for m in walk(f["body"]):
+            if m.get("k") != "match":
+                continue
+            for arm in m["arms"]:
+                bound = set()
+                for alt in pat_alts(arm["pat"]):
+                    for v in walk(alt):
+                        if v.get("k") == "pvariant" and v.get("path", "").endswith("Token::EscapedValue"):
+                            bound |= {i_ for _, i_ in pat_bindings(v)}
+                if not bound:
+                    continue
+                n += 1
+                per += 1
+                # the payload and its plain copies
+                names = set(bound)
+                for _ in range(3):
+                    for st in walk(arm["body"]):
+                        if st.get("k") == "let" and "init" in st and st["pat"].get("k") == "pbind" and peel(st["init"]).get("k") == "local" and peel(st["init"])["id"] in names:
+                            names.add(st["pat"]["id"])
+                bad = [x for x in walk(arm["body"]) if x.get("k") in ("call", "mcall") and (callee(x) or "") in recognisers
+                       and any(peel(a_).get("k") == "local" and peel(a_)["id"] in names for a_ in call_args(x))]
+                ctx.inst("R14.9", "%s:EscapedValue#%d" % (p.split("::")[-1], per), not bad, arm.get("sp") or m.get("sp"),
+                         "%s hands the text of a quoted symbol to %s, which recognises literals and keywords: `|true|`, `|#b01|` or `|let|` would be read as a value / keyword instead of the symbol of that name" % (
+                             p, sorted({callee(x) for x in bad})), sample=show(arm["body"])[:120])
+    ctx.floor("R14.9", "arms binding the text of a quoted symbol", n, 3)
 
 
 def table_driven_rows(ctx, c, f, reader):
